@@ -480,6 +480,37 @@ func (c *Ctx) checkNarrowing(f *ssa.Function, t onnxType) {
 
 // checkD3: raw reader: buffer length == compared length == decode width == sizeof(element type).
 func (c *Ctx) checkD3(r *ssa.Function, t onnxType) {
+	n0 := len(c.obls)
+	c.checkD3Structural(r, t)
+	key := "R13:D3:" + fname(r)
+	needed := false
+	for _, o := range c.obls[n0:] {
+		if o.Key == key && (o.Status == StViolated || o.Status == StUndecided) {
+			needed = true
+		}
+	}
+	if !needed || t.goT == types.Bool || r.Signature.Results().Len() == 1 {
+		return
+	}
+	// how the reader is factored does not matter to the table: payloads of 0..2w+1 bytes
+	known, bad, _ := c.rawReaderTable(r, t)
+	if !known {
+		return
+	}
+	for i := n0; i < len(c.obls); i++ {
+		o := &c.obls[i]
+		if o.Key != key {
+			continue
+		}
+		if bad == "" {
+			o.Status, o.Why = StDischarged, fmt.Sprintf("by the finite table of payload lengths 0..%d (the structural reading does not recognise the factoring): one value per %d bytes, little-endian, in order, no panic", 2*t.width+1, t.width)
+		} else {
+			o.Status, o.Why = StViolated, bad
+		}
+	}
+}
+
+func (c *Ctx) checkD3Structural(r *ssa.Function, t onnxType) {
 	key := "R13:D3:" + fname(r)
 	site := c.pos(r.Pos())
 	if t.goT == types.Bool || r.Signature.Results().Len() == 1 {
